@@ -209,11 +209,14 @@ func (vc *VC) callFunction(st *State, fn *ssa.Function, args []Val, fvs []Val, r
 		}
 	}
 	if c == nil {
-		if vc.assumedPure(fn.Name()) {
-			return vc.pureOpaqueResult(st, rt, fn.Name())
+		if r, ok := vc.nativeModel(st, fn, key, args, rt); ok {
+			return r
+		}
+		if vc.assumedPure(baseName(fn)) {
+			return vc.pureOpaqueResult(st, rt, baseName(fn))
 		}
 		vc.opaqueCalls[key] = true
-		return vc.opaqueResult(st, rt, fn.Name())
+		return vc.opaqueResult(st, rt, baseName(fn))
 	}
 	if c.Trusted {
 		vc.trustedUsed[key] = true
@@ -650,7 +653,7 @@ func (vc *VC) frameConds(st *State) []frameCond {
 					if t.loc.Kind == meta.kind && strings.HasPrefix(comp, lc) && isLeafOf(comp, lc, t.loc.T) {
 						excl = append(excl, eq(o, t.loc.Base))
 					}
-				} else if meta.kind == LField {
+				} else if meta.kind == LField && !t.isMap && t.objT != nil {
 					// whole struct object: all its direct non-struct fields
 					if strings.HasPrefix(comp, typeKey(t.objT)+".") {
 						excl = append(excl, eq(o, t.obj))
